@@ -107,6 +107,9 @@ uint64_t signal_dispositions();
 // MXCSR
 static inline uint32_t get_mxcsr() { uint32_t v; __asm__ volatile("stmxcsr %0" : "=m"(v)); return v; }
 static inline void set_mxcsr(uint32_t v) { __asm__ volatile("ldmxcsr %0" ::"m"(v)); }
+// x87 control word: the other half of the x86-64 floating-point environment (fenv covers both)
+static inline uint16_t get_x87cw() { uint16_t v; __asm__ volatile("fnstcw %0" : "=m"(v)); return v; }
+static inline void set_x87cw(uint16_t v) { __asm__ volatile("fldcw %0" ::"m"(v)); }
 
 // crash capture: the executor registers what to print if the process dies inside a run.
 typedef void (*CrashReporter)(const char *cls, const char *sig);
